@@ -3,46 +3,81 @@
    Model: C15/Model.v (M = computechi2 and the HMF steps over Q; S = checkers for the LAPACK-backed outputs). *)
 From Coq Require Import QArith ZArith List Bool.
 Import ListNotations.
-From PV Require Import Lib.WLS C13.LinAlg C15.Model C15.Proofs.
+From PV Require Import Lib.WLS C13.LinAlg Generated.Chi2 C15.Model C15.Proofs.
 Open Scope Q_scope.
+
+(* computechi2, astep, gstep, astepnn, gstepnn, normbase2 are assembled from expressions GENERATED from /repo on every
+   run (Generated/Chi2.v: weights on A and b with their axis, chi2 term, dof, the Gi/Fi/Aj/Fj terms, the epsilon test,
+   the d multiplier loop, the three e assignments with their column offsets, the multiplicative-update ratios, normbase).
+   The first block says they are the reference forms; the theorems below are therefore about what the source says now. *)
+Theorem C15_computechi2_generated_is_reference : forall b sq A, computechi2 b sq A = computechi2_ref b sq A.
+Proof. exact computechi2_eq_ref. Qed.
+Print Assumptions C15_computechi2_generated_is_reference.
+Theorem C15_astep_generated_is_reference : forall s w g, astep s w g = astep_ref s w g.
+Proof. exact astep_eq_ref. Qed.
+Print Assumptions C15_astep_generated_is_reference.
+(* the source's three e assignments and d loop = "old values of the neighbouring columns" / "number of neighbours" *)
+Theorem C15_gstep_generated_is_reference : forall s w a g eps, (2 <= ncols s)%nat -> gstep s w a g eps = gstep_ref s w a g eps.
+Proof. exact gstep_eq_ref. Qed.
+Print Assumptions C15_gstep_generated_is_reference.
+(* broadcasting axes, sort idiom and mean axis found in the source are the documented ones *)
+Theorem C15_generated_axes :
+  g_mm_axis = ScaleRows /\ g_mmi_axis = ScaleCols /\ g_pcomp_axis = ScaleCols /\ g_pcomp_order = Descending /\ g_norm_axis = 1%nat.
+Proof. exact generated_axes. Qed.
+Print Assumptions C15_generated_axes.
+(* covar's weights and the pseudo-inverse use RECIPROCAL singular values *)
+Theorem C15_generated_reciprocals : forall w vt, 0 < w -> g_wwt w == / w /\ g_mmi_scale vt w == vt / w.
+Proof. exact generated_reciprocals. Qed.
+Print Assumptions C15_generated_reciprocals.
+Theorem C15_generated_covar_term : forall wwt vi vj, g_covar_term wwt vi vj == wwt * (vi * vj).
+Proof. exact generated_covar_term. Qed.
+Print Assumptions C15_generated_covar_term.
+(* pcomp scales eigenvector k by sqrt(l_k) (squared factor l_k) and reports l_k / trace *)
+Theorem C15_generated_pcomp_norm : forall l tr, 0 <= l -> g_pcomp_norm2 l == l /\ g_variance l tr == l / tr.
+Proof. exact generated_pcomp_norm. Qed.
+Print Assumptions C15_generated_pcomp_norm.
+Theorem C15_normbase2_is_mean_square : forall g,
+  normbase2 g = map (fun gk => vsum (map sqr gk) / inject_Z (Z.of_nat (length gk))) g.
+Proof. exact normbase2_is_mean_square. Qed.
+Print Assumptions C15_normbase2_is_mean_square.
 
 (* ---------------------------------------------------------------- computechi2 *)
 (* the coefficients minimise sum_i sqivar_i^2 (A_i . x - b_i)^2 over ALL x (any weights: they enter squared) *)
 Theorem C15_chi2_optimal : forall b sq A r, computechi2 b sq A = Some r -> rows_len (ncols A) A ->
   length (c_acoeff r) = ncols A /\
   forall z, length z = ncols A -> chi2 (cc_data A sq b) (c_acoeff r) <= chi2 (cc_data A sq b) z.
-Proof. exact chi2_optimal. Qed.
+Proof. exact gen_chi2_optimal. Qed.
 Print Assumptions C15_chi2_optimal.
 
 (* ... and the gradient of chi-square vanishes there *)
 Theorem C15_chi2_gradient_zero : forall b sq A r, computechi2 b sq A = Some r -> rows_len (ncols A) A ->
   forall d, gdot (cc_data A sq b) (c_acoeff r) d == 0.
-Proof. exact chi2_gradient_zero. Qed.
+Proof. exact gen_chi2_gradient_zero. Qed.
 Print Assumptions C15_chi2_gradient_zero.
 
 (* the chi2 attribute (computed the way the code does) is that minimum *)
 Theorem C15_chi2_value : forall b sq A r, computechi2 b sq A = Some r -> c_chi2 r == chi2 (cc_data A sq b) (c_acoeff r).
-Proof. exact chi2_value. Qed.
+Proof. exact gen_chi2_value. Qed.
 Print Assumptions C15_chi2_value.
 
 Theorem C15_covar_is_inverse : forall b sq A r, computechi2 b sq A = Some r ->
   let N := normal_mat (ncols A) (cc_data A sq b) in
   exists mm, meq mm N /\ meq (mat_mul (c_covar r) mm) (identity (length mm)) /\
              meq (mat_mul mm (c_covar r)) (identity (length mm)).
-Proof. exact covar_is_inverse. Qed.
+Proof. exact gen_covar_is_inverse. Qed.
 Print Assumptions C15_covar_is_inverse.
 
 Theorem C15_var_is_diag : forall b sq A r, computechi2 b sq A = Some r -> c_var r = diag (c_covar r).
-Proof. exact var_is_diag. Qed.
+Proof. exact gen_var_is_diag. Qed.
 Print Assumptions C15_var_is_diag.
 
 Theorem C15_dof_spec : forall b sq A r, computechi2 b sq A = Some r ->
   c_dof r = (Z.of_nat (length (filter (fun s => Qlt_bool 0 s) sq)) - Z.of_nat (ncols A))%Z.
-Proof. exact dof_spec. Qed.
+Proof. exact gen_dof_spec. Qed.
 Print Assumptions C15_dof_spec.
 
 Theorem C15_yfit_spec : forall b sq A r, computechi2 b sq A = Some r -> c_yfit r = mat_vec A (c_acoeff r).
-Proof. exact yfit_spec. Qed.
+Proof. exact gen_yfit_spec. Qed.
 Print Assumptions C15_yfit_spec.
 
 (* ---------------------------------------------------------------- HMF *)
@@ -54,27 +89,29 @@ Theorem C15_astep_optimal_rowwise : forall s w g a' i si wi ai,
   length ai = length g /\
   (forall d, gdot (hmf_row_data g wi si) ai d == 0) /\
   forall z, length z = length g -> chi2 (hmf_row_data g wi si) ai <= chi2 (hmf_row_data g wi si) z.
-Proof. exact astep_optimal_rowwise. Qed.
+Proof. exact gen_astep_optimal_rowwise. Qed.
 Print Assumptions C15_astep_optimal_rowwise.
 
 (* each component update: column j solved by gstep minimises  sum_i w_ij (s_ij - a_i . x)^2
    + eps * sum_{n neighbour of j} |x - g_old[:,n]|^2  (exactly the system the code solves), gradient zero *)
 Theorem C15_gstep_col_optimal : forall s w a g eps j x,
+  (2 <= ncols s)%nat -> (j < ncols s)%nat ->
   gstep_col s w a g eps (ncols a) (ncols s) j = Some x ->
   rows_len (ncols a) a -> Forall (fun v => 0 <= v) (col j w) ->
   length x = ncols a /\
   (forall d, length d = ncols a -> gdot (gstep_objective s w a g eps j) x d == 0) /\
   forall z, length z = ncols a -> chi2 (gstep_objective s w a g eps j) x <= chi2 (gstep_objective s w a g eps j) z.
-Proof. exact gstep_col_optimal. Qed.
+Proof. exact gen_gstep_col_optimal. Qed.
 Print Assumptions C15_gstep_col_optimal.
 
 Theorem C15_gstep_optimal_colwise : forall s w a g eps g',
+  (2 <= ncols s)%nat ->
   gstep s w a g eps = Some g' -> rows_len (ncols a) a -> Forall (Forall (fun v => 0 <= v)) w ->
   exists cols, g' = transpose cols /\ length cols = ncols s /\
     forall j x, nth_error cols j = Some x ->
       length x = ncols a /\
       forall z, length z = ncols a -> chi2 (gstep_objective s w a g eps j) x <= chi2 (gstep_objective s w a g eps j) z.
-Proof. exact gstep_optimal_colwise. Qed.
+Proof. exact gen_gstep_optimal_colwise. Qed.
 Print Assumptions C15_gstep_optimal_colwise.
 
 (* chi-square (+ penalty) never increases in a coefficient update *)
@@ -82,13 +119,14 @@ Theorem C15_badness_nonincreasing_astep : forall s w a g eps anew,
   astep s w g = Some anew ->
   length a = length s -> length w = length s -> rows_len (length g) a -> Forall (Forall (fun v => 0 <= v)) w ->
   badness s w anew g eps <= badness s w a g eps.
-Proof. exact badness_nonincreasing_astep. Qed.
+Proof. exact gen_badness_nonincreasing_astep. Qed.
 Print Assumptions C15_badness_nonincreasing_astep.
 
 (* ... nor in a component update without smoothing (epsilon None, 0 or negative): chi-square regrouped by columns,
    every column minimised.  With smoothing the code updates all columns against the OLD neighbours (Jacobi style), for
    which no monotonicity is claimed. *)
 Theorem C15_badness_nonincreasing_gstep : forall s w a g eps gnew,
+  (2 <= ncols s)%nat ->
   gstep s w a g eps = Some gnew -> eps_active eps = None ->
   (0 < length s)%nat -> (0 < ncols s)%nat ->
   Forall (fun r => length r = ncols s) s -> Forall (fun r => length r = ncols s) w ->
@@ -96,10 +134,11 @@ Theorem C15_badness_nonincreasing_gstep : forall s w a g eps gnew,
   length g = ncols a -> ncols g = ncols s ->
   Forall (Forall (fun v => 0 <= v)) w ->
   chi2_mat s w a gnew <= chi2_mat s w a g.
-Proof. exact badness_nonincreasing_gstep. Qed.
+Proof. exact gen_badness_nonincreasing_gstep. Qed.
 Print Assumptions C15_badness_nonincreasing_gstep.
 
 Theorem C15_badness_nonincreasing_gstep_None : forall s w a g gnew,
+  (2 <= ncols s)%nat ->
   gstep s w a g None = Some gnew ->
   (0 < length s)%nat -> (0 < ncols s)%nat ->
   Forall (fun r => length r = ncols s) s -> Forall (fun r => length r = ncols s) w ->
@@ -107,7 +146,7 @@ Theorem C15_badness_nonincreasing_gstep_None : forall s w a g gnew,
   length g = ncols a -> ncols g = ncols s ->
   Forall (Forall (fun v => 0 <= v)) w ->
   badness s w a gnew None <= badness s w a g None.
-Proof. exact badness_nonincreasing_gstep_None. Qed.
+Proof. exact gen_badness_nonincreasing_gstep_None. Qed.
 Print Assumptions C15_badness_nonincreasing_gstep_None.
 
 (* non-negative mode: the multiplicative updates keep non-negative factors non-negative *)
@@ -142,6 +181,32 @@ Theorem C15_spectral_reconstruction : forall n C vs ls,
     veq (mat_vec C x) (vsumv n (map2 (fun cl v => vscale cl v) (map2 Qmult ls (map (fun v => dot v x) vs)) vs)).
 Proof. exact spectral_reconstruction. Qed.
 Print Assumptions C15_spectral_reconstruction.
+
+(* for n vectors of Q^n orthonormality alone gives completeness: V^T V = I -> V V^T = I (m+1 vectors of Q^m are
+   linearly dependent; no determinants) *)
+Theorem C15_orthonormal_complete : forall n vs, length vs = n -> vlen n vs -> gram_identity vs ->
+  forall x, length x = n -> veq (vsumv n (map2 (fun c v => vscale c v) (map (fun v => dot v x) vs) vs)) x.
+Proof. exact orthonormal_complete. Qed.
+Print Assumptions C15_orthonormal_complete.
+
+(* hence: what eig_ok checks (eigen-equation + orthonormality) is enough for C = sum_k l_k v_k v_k^T ... *)
+Theorem C15_spectral_reconstruction_orthonormal : forall n C vs ls,
+  length C = n -> length vs = n -> vlen n vs -> length ls = length vs ->
+  Forall2 (fun v l => veq (mat_vec C v) (vscale l v)) vs ls ->
+  gram_identity vs ->
+  forall x, length x = n ->
+    veq (mat_vec C x) (vsumv n (map2 (fun cl v => vscale cl v) (map2 Qmult ls (map (fun v => dot v x) vs)) vs)).
+Proof. exact spectral_reconstruction_orthonormal. Qed.
+Print Assumptions C15_spectral_reconstruction_orthonormal.
+
+(* ... and for trace C = sum of the eigenvalues (so the variance fractions l_k / trace C sum to one) *)
+Theorem C15_trace_is_sum_of_eigenvalues : forall n (C : list (list Q)) (vs : list (list Q)) ls,
+  length C = n -> rows_len n C -> length vs = n -> vlen n vs -> length ls = length vs ->
+  Forall2 (fun v l => veq (mat_vec C v) (vscale l v)) vs ls ->
+  gram_identity vs ->
+  trace C == vsum ls.
+Proof. exact trace_is_sum_of_eigenvalues. Qed.
+Print Assumptions C15_trace_is_sum_of_eigenvalues.
 
 Theorem C15_variance_fractions_sum_one : forall ls, ~ vsum ls == 0 -> vsum (map (fun l => l / vsum ls) ls) == 1.
 Proof. exact variance_fractions_sum_one. Qed.
